@@ -418,11 +418,11 @@ def run(ctx):
     ctx.extra["builtin_exception_classes_enumerated"] = len(classes)
     if ctx.shard[0] != 0:
         rng.shuffle(classes)
-    run_matrix(ctx, rng, classes, per_class=2 if ctx.quick else 6)
+    run_matrix(ctx, rng, classes, per_class=2 if ctx.quick else 24)
     if not ctx.enough():
-        canary_import_cases(ctx, rng, ctx.budget(16, 800))
+        canary_import_cases(ctx, rng, ctx.budget(16, 3200))
     if not ctx.enough():
-        hostile_payloads(ctx, rng, ctx.budget(600, 60000))
+        hostile_payloads(ctx, rng, ctx.budget(600, 400000))
     ctx.sample({"classes": [c.__name__ for c in classes[:12]]})
     if not ctx.counters["exceptions_received"]:
         ctx.inconclusive("no exception was observed")
